@@ -66,4 +66,44 @@ def distSample (it : IType) (c : Caps) : Pick :=
         | _ => pickPlain .mean c        -- real support, or no support at all: 'mean'
   | it => pickPlain it c
 
+
+/-! ## shapes of composite log-probabilities
+
+`sb` = batch shape of the *sample* tensordict (`num_samples ++ batch` of the parameters); a head's
+`dist.log_prob(sample[name])` has shape `sb ++ extra` (`extra` = feature dims the head does not reduce itself). -/
+
+abbrev Shape := List Nat
+
+/-- shape of `dist.log_prob(sample.get(name))` for one head -/
+def headLp (sb : Shape) (extra : Shape) : Shape := sb ++ extra
+
+/-- `if lp.ndim > n: lp = lp.flatten(n, -1).sum(-1)` -/
+def reduceTo (n : Nat) (sh : Shape) : Shape := if sh.length > n then sh.take n else sh
+
+/-- `slp = 0.0; for …: slp = slp + lp` on shapes that agree (no broadcasting between heads is modelled: `none` otherwise) -/
+def sumShapes : List Shape → Option Shape
+  | [] => some []
+  | [s] => some s
+  | s :: rest => match sumShapes rest with
+    | some r => if r = s then some s else none
+    | none => none
+
+/-- mirrors tensordict/nn/distributions/composite.py:CompositeDistribution.log_prob, aggregated path:
+every head's log-prob is reduced to the first `sample.ndim` dims, then summed -/
+def compositeLogProbShape (sb : Shape) (heads : List Shape) : Option Shape :=
+  sumShapes (heads.map (fun ex => reduceTo sb.length (headLp sb ex)))
+
+/-- the seeded variant that reduces to `len(self.batch_shape)` dims (`bs` = batch shape of the distribution) -/
+def compositeLogProbShapeBatch (bs sb : Shape) (heads : List Shape) : Option Shape :=
+  sumShapes (heads.map (fun ex => reduceTo bs.length (headLp sb ex)))
+
+/-- mirrors tensordict/nn/probabilistic.py:ProbabilisticTensorDictModule.forward, composite branch with
+`composite_lp_aggregate()`: `sum(log_prob.sum(dim="feature").values(True, True))` over the per-head log-probs of
+the sample tensordict (batch shape `sb`) -/
+def moduleLogProbShape (sb : Shape) (heads : List Shape) : Option Shape :=
+  sumShapes (heads.map (fun ex => (headLp sb ex).take sb.length))
+
+/-- per-head entries (aggregate off): the module writes `dist.log_prob(out_tensors)`'s entries as they are -/
+def perHeadShapes (sb : Shape) (heads : List Shape) : List Shape := heads.map (headLp sb)
+
 end TdVerif.C14.Prob
